@@ -4,3 +4,4 @@ pub mod circuitbreaker;
 pub mod budget;
 pub mod adaptive;
 pub mod retry;
+pub mod backoff;
